@@ -82,7 +82,7 @@ struct Exec{
     verif::alloc_fail_at(0);
     if((int)nallocs.size()<=c.opi) nallocs.resize(c.opi+1,0);
     nallocs[c.opi]=n;
-    if(fired){ c.fault_fired_in_run=true; c.ctr->add("fault_bad_alloc_fired"); nontrivial=true; }
+    if(fired){ c.fault_fired_in_run=true; c.ctr->add("fault_bad_alloc_fired"); c.ctr->add("fault_bad_alloc_in_"+c.opkind); nontrivial=true; }
     executed++;
     return fired;
   }
@@ -137,6 +137,7 @@ struct Exec{
   void op_stmt(const Json& o);
   void op_query(const Json& o,const std::string& op);
   void op_cache(const Json& o,const std::string& op);
+  void op_container(const Json& o);
   void run_op(const Json& o);
   void finish();
   void leak_check();   // after the run thread has exited (its thread-local scratch objects are destroyed then)
